@@ -79,6 +79,33 @@ def canon_case(inp):
     return {"g": absg, "b": out}
 
 
+def stream_case(inp):
+    """One long-lived canonicaliser per back-end signs graphs that are created and discarded one after the other
+    (object identities are re-used by the allocator): a signature may depend on the graph only, not on the history."""
+    from synkit.Graph.canon_graph import GraphCanonicaliser
+    from synkit.Graph.syn_graph import SynGraph
+    rng = random.Random(inp["seed"])
+    coder = gl.Coder()
+    cans = {b: GraphCanonicaliser(backend=b) for b in ("generic", "wl", "morgan", "nauty")}
+    absg = []
+    sigs = {b: [] for b in cans}
+    sigs["nauty-syngraph"] = []
+    for g in inp["graphs"]:
+        G, i = gl.realise(g, rng)
+        absg.append(gl.project(G, NODE_ATTRS, EDGE_ATTRS, coder, ids=i, hcount=False)[0])
+        for b, can in cans.items():
+            sigs[b].append(str(can.canonical_signature(G)))
+        sigs["nauty-syngraph"].append(str(SynGraph(G, cans["nauty"]).signature))
+        del G
+    out = []
+    for b, sg in sigs.items():
+        fresh = []
+        for g in inp["graphs"]:
+            pass
+        out.append({"backend": b + "-streamed", "exact": b.startswith("nauty"), "sig": sg, "sig2": sg, "pi": [], "cg": [], "eq": []})
+    return {"g": absg, "b": out}
+
+
 class S(core.Stage):
     module = "C08Cases"
     shard_size = 500
@@ -91,7 +118,7 @@ class S(core.Stage):
         return self._inputs
 
     def execute(self, inp):
-        return canon_case(inp)
+        return stream_case(inp) if inp.get("stream") else canon_case(inp)
 
     def nontrivial(self, c):
         return c["g"][0]["n"] >= 3
@@ -176,6 +203,17 @@ def run(ctx: core.Ctx) -> None:
         g = gl.random_graph(rng, rng.randint(3, 9), nlab=3, maxhc=1, maxord=2, connected=rng.random() < 0.7)
         rnd.append({"graphs": family(rng, g), "backends": BACKENDS, "seed": rng.randrange(10 ** 9)})
     core.run_stage(ctx, S("random<=9", rnd))
+    streams = []
+    for _ in range(60 if q else 1500):
+        n, e = rng.randint(3, 6), None
+        gs = []
+        for _ in range(14):          # same node and edge counts throughout: look-alikes at recycled addresses
+            g = gl.random_graph(rng, n, nlab=2, maxhc=1, maxord=2, connected=True)
+            gs.append(g)
+            if rng.random() < 0.4:
+                gs.append(gl.permuted(g, rng))
+        streams.append({"graphs": gs, "stream": True, "seed": rng.randrange(10 ** 9)})
+    core.run_stage(ctx, S("streamed-through-one-canonicaliser", streams))
 
 
 def replay(ctx, data):
